@@ -19,6 +19,7 @@ MENU = [
     ("[a='s']", 'a', 's', None), ('[b=w]', 'b', 'w', None), ('[g.]', 'g', None, 'bool'), ('[!d]', 'd', None, 'implied'),
     ('[!h=z]', 'h', 'z', 'implied'), ('[e={x}]', 'e', 'x', 'expr'), ('[disabled]', 'disabled', None, 'listed'),
     ('[class=k]', 'class', 'k', None), ('[id=j]', 'id', 'j', None), ('[for=f]', 'for', 'f', None),
+    ('[!k.]', 'k', None, 'implied'), ('[a=""]', 'a', '', None),
 ]
 OPTION_SPACE = {
     'output.attributeQuotes': ['double', 'single'],
